@@ -24,7 +24,7 @@ CONTEXTS = (("m1", "p1"), ("m1", "p2"))
 VALUES = ({"v": 1}, [2, "two"], 3)
 
 
-def make(n_ops: int, max_len: int, alphabet: str, two_ctx: bool) -> Any:
+def make(n_ops: int, max_len: int, alphabet: str, two_ctx: bool, bad_values: bool = False) -> Any:
     def mk() -> Any:
         import ml_pipeline_engine.artifact_store.store.filesystem as fsmod
         from ml_pipeline_engine.artifact_store.enums import DataFormat
@@ -56,8 +56,17 @@ def make(n_ops: int, max_len: int, alphabet: str, two_ctx: bool) -> Any:
                 if op == 0:
                     fi = sym.choice("fmt%d" % i, 2)
                     val = VALUES[i % len(VALUES)]
+                    bad_value = bad_values and sym.bool("unserialisable%d" % i)
+                    if bad_value:
+                        val = (lambda: 0)  # neither picklable nor JSON-representable
                     kind, payload = loop.run_to_verdict(st.save(keys[ki], val, fmt=FMTS[fi]))
                     trace.append(("save", ki, ci, fi, kind))
+                    if bad_value and (ci, ki) not in model:
+                        goals.append("failed_save")
+                        if kind == "done":
+                            label = "unserialisable_value_saved:op%d" % i
+                            break
+                        continue  # the model is unchanged: the key must not appear saved, other keys stay intact
                     if (ci, ki) in model:
                         goals.append("second_save")
                         if not (kind == "raised" and isinstance(payload, ArtifactAlreadyExists)):
@@ -121,6 +130,13 @@ register(Job("C18", "history3_dots", make(3, 3, "ab.", True), tier="quick", budg
                   "symbolic": ["id1, id2: strings 1..3 over {a, b, .}", "op_i in {save, load}", "key_i", "fmt_i", "ctx_i"],
                   "functions": FUN, "assumptions": A,
                   "bounds": "ids of length <= 3 over {a,b,.} (dots and prefixes); 3 operations; 2 contexts sharing one directory"}))
+register(Job("C18", "history3_failed_saves", make(3, 2, "a.*[", False, bad_values=True), tier="quick", budget_s=500,
+             parts=[{"op0": a, "op1": b, "op2": c, "key0": d} for a in range(2) for b in range(2) for c in range(2) for d in range(2)],
+             goals=("failed_save", "load_hit", "load_miss"),
+             doc={"template": "history of 3 operations where a save may be given an unserialisable value (it must fail, the key "
+                              "must not appear saved, other keys must stay intact)",
+                  "symbolic": ["id1, id2: strings 1..2 over {a . * [}", "op_i", "key_i", "fmt_i", "whether save_i gets an unserialisable value"],
+                  "functions": FUN, "assumptions": A, "bounds": "ids of length <= 2; 3 operations; 1 context"}))
 register(Job("C18", "history2_glob_chars", make(2, 2, "a.*?[]!", False), tier="quick", budget_s=500,
              parts=[{"op0": a, "op1": b} for a in range(2) for b in range(2)],
              goals=("second_save", "load_hit", "load_miss"),
@@ -214,7 +230,8 @@ def make_smtlib() -> Any:
             if v == "inconclusive":
                 if sym.symbolic:
                     raise UnknownSatisfiability("SMT-LIB query inconclusive: %r" % ({k: r for k, r in res.items() if not k.endswith(".out")},))
-                return "inconclusive", {"digest": ["inconclusive"], "goals": [], "summary": res}
+                # concrete (warm-up / cross-check) mode: no verdict either way
+                return "ok", {"digest": ["inconclusive"], "goals": [], "summary": dict(res, verdict="inconclusive")}
             label = None
             if v == "sat":
                 label = "distinct_ids_alias:%s.%s_found_by_lookup_of_%s" % (model.get("k1"), model.get("f1"), model.get("k2"))
